@@ -375,6 +375,7 @@ fn exec_c17(sc: &C17Scenario) -> Outcome {
         (0..sc.n_tampers).map(|_| gen_tamper(&mut rng, [orig[0].len(), orig[1].len(), orig[2].len()], [&orig[0], &orig[1], &orig[2]])).collect()
     };
     let lock_checksum = |b: &[u8]| -> Option<String> { serde_json::from_slice::<Value>(b).ok().and_then(|v| v["checksum"].as_str().map(String::from)) };
+    let mut elsewhere_rng = Rng::new(sc.tamper_seed ^ 0xE15E);
     for t in &tampers {
         let i = t.file as usize;
         let new = apply(&t.kind, &orig[i]);
@@ -406,6 +407,13 @@ fn exec_c17(sc: &C17Scenario) -> Outcome {
             let _ = w.cli(&["checkpoint", "update"]);
         } else if must_reject {
             let before = w.snapshot_dir(&w.out_dir());
+            // half of the source tampers are looked at from another directory (the configuration is named by its
+            // absolute path): whatever the reason given, a changed source must not be accepted from anywhere
+            let saved_cwd = w.cwd_rel.clone();
+            if t.file == Which::Source && elsewhere_rng.chance(1, 2) && std::fs::create_dir_all(w.root.join("elsewhere/deeper")).is_ok() {
+                w.cwd_rel = Some("elsewhere/deeper".into());
+                out.fault("tampered_source_examined_from_another_directory", 1);
+            }
             for api in APIS.iter() {
                 let r = if api[0] == "run" { controlled(&mut w, api, hang) } else { Some((proc_of(w.cli(api)), 0)) };
                 out.sub_evals += 1;
@@ -434,6 +442,7 @@ fn exec_c17(sc: &C17Scenario) -> Outcome {
                     break;
                 }
             }
+            w.cwd_rel = saved_cwd;
             // log tail must refuse to listen
             if out.violations.is_empty() {
                 if let Ok(p) = w.start_m("T", &["log".into(), "tail".into(), "--stdout".into()], "none", &[]) {
